@@ -29,6 +29,7 @@ import c08_routes as ROUTES
 PROP = "C08"
 TRUSTED = [
     "Coq 8.16.1 kernel + vm_compute (no native_compute); extraction with ExtrOcamlBasic only, OCaml 4.13 (ocaml/C08/c08_driver.ml reader/printer)",
+    "stack_stage: the number of arguments each native passes to its callback (STACK_ARGC) and the native-constructor check of `new Proxy` (STACK_PRE) are read off the builtins by hand",
     "gen/c08_cfg.py: reader of CodeBlock::verif_dump() and the successor rule (fall-through unless Jump/Return/Throw/ReThrow/ThrowNew*, every Address operand, "
     "every handler whose range meets [pc,next]) - over-approximating: extra edges can only make the certified check reject",
     "cut kinds beyond IncrementLoopIteration are assumptions, reported per block: 'suspend' (GeneratorYield/AsyncGeneratorYield/Await return control to the "
@@ -319,7 +320,7 @@ def forms_stage(run, jsbin, modelbin, findings):
     jobs, meta, mlines = [], [], []
     allforms = [(name, name, v[0]) for name, v in FORMS.items()] + [(vn, base, tpl) for vn, base, tpl in FORM_VARIANTS]
     for name, base, tpl in allforms:
-        for L in (Ls if name == base else Ls[:3]):
+        for L in (Ls if name == base else (Ls[1:3] if run.quick else Ls[:4])):
             ns = [0, 1, max(L - 1, 0), L, L + 1, L + 2, L + 3, L + 5] if name == base else [max(L, 1), L + 1, L + 2, L + 4]
             for n in sorted(set(ns)):
                 text = tpl.replace("{N}", str(n)).replace("{OBJ}", "{" + ",".join("k%d:1" % j for j in range(n)) + "}")
@@ -479,7 +480,7 @@ def stack_stage(run, jsbin, modelbin, findings):
         t_code = {"k": "%d;;o0:1,%sk1.%d,r" % (regs[1], pre, argc), "h": "%d;;o0:1,%sh1.%d.p,r" % (regs[1], pre, argc),
                   "hk": "%d;;o0:1,%sh2.%d.p,r" % (regs[1], pre, argc)}[shape]
         codes = "%d;;k1.0,r/%s/%d;;k1.0,r/0;;r" % (regs[0], t_code, regs[2])
-        for S in ([40, 90] if run.quick else [24, 40, 64, 90, 150]):
+        for S in ([run.rng.choice([24, 40, 64, 90])] if run.quick else [24, 40, 64, 90, 150]):
             for R in range(1, 70):
                 mlines.append("V s.%s.%d.%d 100000 %d %d 0 1 %s %s" % (n, S, R, R, S, codes, ",".join(["1"] * (9 * R + 12))))
             plan.append((n, S, regs))
